@@ -53,6 +53,13 @@ def Coll.add (c : Coll) (d : BDoc) : Coll × Bool :=
   | .streaming b => let (b', r) := b.add d; (.streaming b', r == SAddResult.ok)
   | .streamingDynamic b => let (b', r) := b.add d; (.streamingDynamic b', r == SAddResult.ok)
 
+/-- `Add` of an unreadable value: the streaming collector flushes a full chunk before it looks
+at the sample; all others fail in `readDocument` first -/
+def Coll.addBad (c : Coll) : Coll :=
+  match c with
+  | .streaming b => if b.count ≥ b.maxSamples then .streaming b.flush.1 else c
+  | _ => c
+
 def Coll.resolve : Coll → Option (List OutDoc)
   | .base b => b.resolve | .batch b => b.resolve | .dynamic b => b.resolve
   | .streaming b => b.resolve | .streamingDynamic b => b.resolve
